@@ -100,6 +100,7 @@ VARIANTS = [
     V("ravel sentinel mask from output", ("C07",), "R-SENTINEL", "core.py", '    nan_by_mask = reduce(np.logical_or, [(f == -1) for f in factorized])', '    nan_by_mask = group_idx == -1', must_mention="_ravel_factorized"),
     V("offset sentinel restore deleted", ("C08",), "R-SENTINEL", "core.py", '    offset[labels == -1] = -1\n', '', must_mention="offset_labels"),
     V("label axes always ascending", ("C08",), "R-COPERMUTE", "core.py", 'tuple(-array.ndim + ax + by_.ndim for ax in axis_))', 'tuple(ax for ax in range(by_.ndim) if ax + array.ndim - by_.ndim in axis_))', must_mention="groupby_reduce"),
+    V("twin: label axes bound to a local first", ("C08",), "", "core.py", '        by_ = _move_reduce_dims_to_end(by_, tuple(-array.ndim + ax + by_.ndim for ax in axis_))', '        by_axes_ = tuple(-array.ndim + ax + by_.ndim for ax in axis_)\n        by_ = _move_reduce_dims_to_end(by_, by_axes_)', expect="silent"),
     V("labels not re-sorted with values", ("C16",), "R-COINDEX", "core.py", '                groups = (groups[0][sorted_idx],)', '                groups = (groups[0],)', must_mention="groupby_reduce"),
     V("duplicate-sentinel mask applied to values only", ("C16",), "R-COINDEX", "core.py", '            groups_ = groups_[..., ~mask]', '            groups_ = groups_[groups_ != -1]', must_mention="groupby_reduce"),
     V("median gets a decomposition", ("C18",), "R-BLOCKONLY", "aggregations.py", '    name="median",\n    fill_value=dtypes.NA,\n    chunk=None,\n    combine=None,', '    name="median",\n    fill_value=dtypes.NA,\n    chunk="median",\n    combine="median",', must_mention="median"),
